@@ -4,7 +4,7 @@
 # scratch copy of /repo patched with selftest_benign/*.diff (proof obligations only).
 rc=0
 for d in /verif/selftest_benign/*.diff; do
-  for p in C01 C02 C03 C06 C08 C14 C15 C17 C20; do
+  for p in C01 C02 C03 C04 C05 C06 C07 C08 C09 C10 C12 C14 C15 C16 C17 C20; do
     out=$(PYVC_ONLY_PROOF=1 /verif/tools/mutrun.sh $d $p 2>&1 | grep -v '^KNOWN' | tail -1)
     case "$out" in *"exit=0") echo "ok   $(basename $d) $p";; *) echo "FAIL $(basename $d) $p: $out"; rc=1;; esac
   done
